@@ -147,7 +147,17 @@ def enum_squeeze(tier):
         for mask in itertools.product([0, 1], repeat=d):
             if any(mask):  # at least one mode larger than 1 (no TT of order 0 exists)
                 out.append(list(mask))
-    return out * (1 if tier == 'quick' else 6)
+    out = out * (1 if tier == 'quick' else 6)
+    # long trains with few mode-carrying cores (what measuring a few sites of a long register produces) and with many
+    rs = np.random.default_rng(12345)
+    for d in (9, 10, 11, 12, 14, 16, 17, 20, 24) * (1 if tier == 'quick' else 4):
+        for few in (True, True, False):
+            m = [0] * d
+            k = int(rs.integers(1, 5)) if few else int(rs.integers(5, 11))
+            for j in rs.choice(d, size=min(k, d), replace=False):
+                m[int(j)] = 1
+            out.append(m)
+    return out
 
 
 def w_squeeze(ctx, rng, idx, mask):
@@ -155,7 +165,7 @@ def w_squeeze(ctx, rng, idx, mask):
     rows, cols = [], []
     for m in mask:
         if m:
-            r, c = int(rng.integers(1, 4)), int(rng.integers(1, 3))
+            r, c = (int(rng.integers(1, 4)), int(rng.integers(1, 3))) if d <= 8 else (2, 1)
             if r * c == 1:
                 r = 2
             rows.append(r)
